@@ -1,0 +1,6 @@
+//go:build !verif
+
+package otto
+
+// verifStep is a no-op unless the package is built with the "verif" tag.
+func (rt *runtime) verifStep(int, interface{}) {}
